@@ -88,10 +88,15 @@ impl<'t, 'd> Pr<'t, 'd> {
                 self.prefix(g, f, head, true);
                 self.call_args(args, *sugar);
             }
-            Expr::MethodCall { obj, name, args, sugar } => {
+            Expr::MethodCall { obj, name, types, args, sugar } => {
                 self.prefix(g, obj, head, false);
                 self.tok(G::Tight, ":");
                 self.tok(G::Tight, name);
+                if let Some(types) = types {
+                    self.tok(G::NoNl, "<<");
+                    self.type_args(types);
+                    self.tok(G::Tight, ">>");
+                }
                 self.call_args(args, *sugar);
             }
             Expr::Instantiate { expr, types } => {
